@@ -12,25 +12,35 @@
 #include <stdlib.h>
 #include <errno.h>
 
+static tree_node_t *follow_link(fstree_t *fs, tree_node_t *node)
+{
+	if (node->flags & FLAG_LINK_RESOVED)
+		return node->data.target_node;
+
+	return fstree_get_node_by_path(fs, fs->root, node->data.target,
+				       false, false);
+}
+
 static int resolve_link(fstree_t *fs, tree_node_t *node)
 {
-	tree_node_t *start = node;
+	tree_node_t *start = node, *slow = node;
+	size_t steps = 0;
 
 	for (;;) {
 		if (!S_ISLNK(node->mode) || !(node->flags & FLAG_LINK_IS_HARD))
 			break;
 
-		if (node->flags & FLAG_LINK_RESOVED) {
-			node = node->data.target_node;
-		} else {
-			node = fstree_get_node_by_path(fs, fs->root,
-						       node->data.target,
-						       false, false);
-			if (node == NULL)
-				return -1;
-		}
+		node = follow_link(fs, node);
+		if (node == NULL)
+			return -1;
 
-		if (node == start) {
+		/* a second cursor follows at half speed. If the chain of
+		   links runs into a loop, possibly one that does not lead
+		   back to the start, the two will meet. */
+		if ((++steps % 2) == 0)
+			slow = follow_link(fs, slow);
+
+		if (node == start || node == slow) {
 			errno = EMLINK;
 			return -1;
 		}
